@@ -4,9 +4,11 @@ package main
 // JSON string escapes (C02).
 
 import (
+	"fmt"
 	"go/ast"
 	"go/token"
 	"go/types"
+	"strings"
 
 	"golang.org/x/tools/go/packages"
 )
@@ -182,5 +184,180 @@ func runJS(c *Ctx, s *Sink) {
 	})
 	if found == 0 {
 		s.Undecided(nil, "pkg/obiformats:json-title-scanner", 0, "no function slicing its input for json.Unmarshal found")
+	}
+}
+
+// JS-A — the scanner's transition function is JSON's string automaton.
+//
+// The loop body of the byte scanner is loop-free code over two flags (in
+// string, escaped), a brace depth and the current byte.  Its transition table is
+// finite: it is evaluated for every flag valuation and every byte class and
+// compared with the automaton of RFC 8259 strings:
+//   outside a string  : '"' enters; braces change the depth
+//   in a string       : '\' sets escaped; '"' leaves; braces are text
+//   in a string, esc. : whatever the byte, it is consumed and escaped is cleared
+func init() {
+	register(&Rule{
+		ID: "JS-A", Props: []string{"C02"}, Min: 1,
+		Doc: `the byte scanner that delimits the annotation object implements the JSON string automaton: its loop body, evaluated for the 2x2 flag valuations x byte classes
+{'"', '\\', '{', '}', other}, yields exactly: outside a string '"' enters it and braces move the depth; inside, an unescaped '\\' sets the escape flag, an unescaped '"' leaves, braces are text;
+after an escape any byte (a second backslash included) is consumed and the flag cleared. A scanner that keeps the flag set after "\\\\" takes the closing quote of a value ending with a
+backslash for an escaped one and loses every annotation.`,
+		Run: runJSA,
+	})
+}
+
+func runJSA(c *Ctx, s *Sink) {
+	fd, p := c.FindFunc("pkg/obiformats", "_parse_json_header_")
+	key := "pkg/obiformats._parse_json_header_:automaton"
+	if fd == nil {
+		s.Undecided(nil, key, 0, "function not found")
+		return
+	}
+	info := p.TypesInfo
+	// decoder based implementation: nothing to evaluate (JS clause A covers it)
+	decoder := false
+	ast.Inspect(fd.Body, func(n ast.Node) bool {
+		if call, ok := n.(*ast.CallExpr); ok {
+			if sel, ok := call.Fun.(*ast.SelectorExpr); ok && sel.Sel.Name == "InputOffset" {
+				decoder = true
+			}
+		}
+		return true
+	})
+	if decoder {
+		s.Pass(nil, key, fd.Pos(), "the object extent is delimited by a JSON decoder")
+		return
+	}
+	var loop *ast.ForStmt
+	ast.Inspect(fd.Body, func(n ast.Node) bool {
+		if f, ok := n.(*ast.ForStmt); ok && loop == nil {
+			loop = f
+		}
+		return true
+	})
+	params := flattenParams(fd.Type.Params)
+	if loop == nil || len(params) == 0 {
+		s.Undecided(nil, key, fd.Pos(), "no scanning loop")
+		return
+	}
+	buffer := info.ObjectOf(params[0])
+	// roles
+	var inStr, esc, depth types.Object
+	ast.Inspect(loop.Body, func(n ast.Node) bool {
+		switch x := n.(type) {
+		case *ast.AssignStmt:
+			if len(x.Lhs) != 1 || len(x.Rhs) != 1 {
+				return true
+			}
+			o := rootObj(info, x.Lhs[0])
+			if o == nil {
+				return true
+			}
+			bt, ok := o.Type().Underlying().(*types.Basic)
+			if !ok || bt.Kind() != types.Bool {
+				return true
+			}
+			// toggled: X = !X
+			if u, ok := ast.Unparen(x.Rhs[0]).(*ast.UnaryExpr); ok && u.Op == token.NOT && rootObj(info, u.X) == o {
+				inStr = o
+				return true
+			}
+			mentionsBackslash := false
+			ast.Inspect(x.Rhs[0], func(m ast.Node) bool {
+				if lit, ok := m.(*ast.BasicLit); ok && lit.Kind == token.CHAR && lit.Value == `'\\'` {
+					mentionsBackslash = true
+				}
+				return true
+			})
+			if mentionsBackslash {
+				esc = o
+			}
+		case *ast.IncDecStmt:
+			if o := rootObj(info, x.X); o != nil && depth == nil {
+				depth = o
+			}
+		}
+		return true
+	})
+	if inStr == nil || esc == nil || depth == nil {
+		s.Undecided(nil, key, loop.Pos(), "cannot identify the in-string flag (toggled on '\"'), the escape flag (assigned from a test of '\\\\') and the depth counter of the scanner")
+		return
+	}
+	classes := []struct {
+		name string
+		b    int64
+	}{{`'"'`, '"'}, {`'\\'`, '\\'}, {"'{'", '{'}, {"'}'", '}'}, {"another byte", 'a'}}
+	var bad []string
+	n := 0
+	for _, q := range []bool{false, true} {
+		for _, e := range []bool{false, true} {
+			if !q && e {
+				continue // unreachable: the escape flag is only set inside a string
+			}
+			for _, cl := range classes {
+				env := map[types.Object]cevalue{}
+				ast.Inspect(fd, func(nn ast.Node) bool {
+					if id, ok := nn.(*ast.Ident); ok {
+						if v, ok := info.ObjectOf(id).(*types.Var); ok && !v.IsField() {
+							if bt, ok := v.Type().Underlying().(*types.Basic); ok {
+								if _, set := env[v]; !set {
+									if bt.Info()&types.IsInteger != 0 {
+										env[v] = cevalue{i: 7}
+									} else if bt.Kind() == types.Bool {
+										env[v] = cevalue{isBool: true}
+									}
+								}
+							}
+						}
+					}
+					return true
+				})
+				env[inStr] = cevalue{isBool: true, b: q}
+				env[esc] = cevalue{isBool: true, b: e}
+				env[depth] = cevalue{i: 5}
+				hook := func(ix *ast.IndexExpr) (int64, bool) {
+					if rootObj(info, ix.X) == buffer {
+						return cl.b, true
+					}
+					return 0, false
+				}
+				if _, err := evalStmts(c, p, loop.Body.List, env, hook); err != nil {
+					s.Undecided(nil, key, loop.Pos(), "loop body cannot be evaluated: "+err.Error())
+					return
+				}
+				n++
+				// reference
+				wq, we, wd := q, false, int64(5)
+				switch {
+				case !q:
+					if cl.b == '"' {
+						wq = true
+					}
+					if cl.b == '{' {
+						wd = 6
+					}
+					if cl.b == '}' {
+						wd = 4
+					}
+				case q && !e:
+					if cl.b == '"' {
+						wq = false
+					}
+					if cl.b == '\\' {
+						we = true
+					}
+				}
+				gq, ge, gd := env[inStr].b, env[esc].b, env[depth].i
+				if gq != wq || ge != we || gd != wd {
+					bad = append(bad, fmt.Sprintf("(in string=%v, escaped=%v) on %s gives (in string=%v, escaped=%v, depth%+d), JSON requires (in string=%v, escaped=%v, depth%+d)", q, e, cl.name, gq, ge, gd-5, wq, we, wd-5))
+				}
+			}
+		}
+	}
+	if len(bad) > 0 {
+		s.Fail(nil, key, loop.Pos(), "the scanner is not the JSON string automaton: "+strings.Join(bad, "; "))
+	} else {
+		s.Pass(nil, key, loop.Pos(), fmt.Sprintf("%d transitions (flags x byte classes) agree with the JSON string automaton", n))
 	}
 }
